@@ -43,7 +43,7 @@ def te_headers():
 
 
 SUBSET = [None, "chunked", "identity", "identity;q=0", "chunked;q=0", "gzip", "identity;q=0.5, chunked;q=0.5",
-          "chunked;q=0.3, identity;q=0.7", "trailers", "chunked;q=abc"]
+          "chunked;q=0.3, identity;q=0.7", "trailers", "chunked;q=abc", "chunked;", "identity;;q=1", "trailers, chunked;a"]
 
 
 def line(ver, st, ln, thr, te, head=0, up="~", tename="TE", boxed=False):
